@@ -641,6 +641,19 @@ func listAlts(t *rm.Type, f *rm.Field, node *rm.Value, o Opts, leaf int) []alt {
 	for _, n := range []int{1, 2, 3} {
 		ms = append(ms, member{desc: fmt.Sprintf("n=%d", n), v: mk(n)})
 	}
+	// runs of EQUAL adjacent elements (a reader that shortcuts "same as the previous element")
+	if f.Elem.Kind == "fixtext" || f.Elem.Kind == "lentext" {
+		for _, e := range [][]byte{{'k'}, {'k', 'v'}} {
+			if f.Elem.Kind == "fixtext" && len(e) > f.Elem.Width {
+				continue
+			}
+			ms = append(ms, member{desc: fmt.Sprintf("[%q x2]", e), v: rm.List(rm.Text(e), rm.Text(e))})
+			ms = append(ms, member{desc: fmt.Sprintf("[x, %q x3]", e), v: rm.List(rm.Text([]byte{'x'}), rm.Text(e), rm.Text(e), rm.Text(e))})
+		}
+	} else if f.Elem.Kind != "struct" {
+		e := pattern(leaf, rm.ScalarWidth(f.Elem.Kind))
+		ms = append(ms, member{desc: "[e x3]", v: rm.List(rm.Scalar(e), rm.Scalar(e), rm.Scalar(e))})
+	}
 	for _, n := range []int{255, 256, 257} {
 		if uint64(n) > max && !o.Over {
 			continue
@@ -695,6 +708,17 @@ func listAlts(t *rm.Type, f *rm.Field, node *rm.Value, o Opts, leaf int) []alt {
 					ms = append(ms, member{desc: fmt.Sprintf("[len %d, len %d, len %d]", a, b, c), v: rm.List(tx(0, a), tx(1, b), tx(2, c)), heavy: true})
 				}
 			}
+		}
+	}
+	// text lists whose encoding crosses 0.5, 1, 2 and 4 MiB (n elements of 60,000 bytes): readers that gather a list
+	// into one slab or page have a budget somewhere
+	if o.Combos && f.Elem.Kind == "lentext" && rm.MaxOf(f.Elem.Prefix) >= 60000 {
+		for _, n := range []int{9, 18, 35, 70} {
+			l := &rm.Value{K: rm.VList, Elems: make([]*rm.Value, n)}
+			for j := range l.Elems {
+				l.Elems[j] = rm.Text(rolling(leaf+j, 60000-j))
+			}
+			ms = append(ms, member{desc: fmt.Sprintf("%d texts of ~60000 bytes", n), v: l, heavy: true})
 		}
 	}
 	// every element-alphabet member at length 1
